@@ -96,6 +96,21 @@ def gen_texts(tier, seed, n_quick, n_thorough, profile=None):
             prof.max_tparams, prof.max_tvalues = 3, 5
         g = G.Gen(r, prof)
         m = g.module()
+        if k % 5 == 3:
+            # a typedef whose target is spelled with a namespace path of two or three components, and a namespace elsewhere
+            # whose components repeat the last one (leaf::leaf) holding a template of the same name
+            dbl = ('ty', ('tn', [], 'double', []), False, '', True)
+            tv = ('ty', ('tn', [], 'T', []), False, '', False)
+            box = lambda extra: ('class', ('tmpl', ['T'], [[]]), False, 'BoxT', None,
+                                 [('ctor', None, 'BoxT', ())] + extra)
+            deep = r.random() < 0.5
+            path = ['alpha', 'mid', 'leaf'] if deep else ['alpha', 'leaf']
+            inner = [box([('method', None, 'get', ('r1', tv), (), True)]),
+                     ('typedef', ('tt', path, 'BoxT', [dbl], False, ''), 'BoxD')]
+            for nm in reversed(path):
+                inner = [('ns', nm, inner)]
+            m = list(m) + inner + [('ns', 'leaf', [('ns', 'leaf', [box([])])])]
+            g.count('typedef_target_at_depth_%d' % len(path))
         out.append(('gen:%d/%d' % (seed, k), G.text(G.tokens(m))))
         for a, b in g.stats.items():
             stats[a] = stats.get(a, 0) + b
